@@ -7,7 +7,7 @@
 (* still checked.  By the soundness rule (DESIGN.md section 2) a mismatch here is drift, not a   *)
 (* property violation.  Stage invariants (a greedy pass never grows its list; spans partition    *)
 (* the cells; no two fragments left that could merge) are evaluated on the logged values too.    *)
-EXTENDS PipelineOps, Json, IOUtils
+EXTENDS Stages, Json, IOUtils
 VARIABLES l, bad, cs, merged, contacts, rejects, ninv,
           phase,      \* "endorse" (first pass over a span) or "regroup" (re-fragmentation of rejected spans)
           freeAcc,    \* free fragments accumulated over the spans of the conversion (stage 12)
@@ -96,6 +96,20 @@ Step(ev) ==
              groups == [i \in 1..Len(ev.groups) |-> [j \in 1..Len(ev.groups[i]) |-> NoCells2(Frag(ev.groups[i][j]))]]
              mgroups == [i \in 1..Len(groupAcc) |-> [j \in 1..Len(groupAcc[i]) |-> NoCells2(groupAcc[i][j])]] IN
          /\ bad' = Mark(SameBagSeq(free, [i \in 1..Len(freeAcc) |-> NoCells2(freeAcc[i])]) /\ groups = mgroups, "regroup")
+         /\ UNCHANGED <<cs, merged, contacts, rejects, phase, freeAcc, groupAcc>> /\ ninv' = ninv + 1
+    [] ev.ev = "enclose" ->      \* stage 15: the free elements (and the quoted texts) arranged by bounding boxes; {tags} become classes
+         \* ev.items: the elements offered, as tuples of PipelineOps!Strip (default scale: lattice units);
+         \* ev.flat: what the code's forest holds, flattened: <<tuple, class names>> per element that is still there
+         LET enc == EncloseAll(ev.items)
+             keptIdx == SelectSeq([i \in 1..Len(ev.items) |-> i], LAMBDA i : i \notin enc.gone)
+             model == [j \in 1..Len(keptIdx) |-> <<ev.items[keptIdx[j]], enc.cls[keptIdx[j]]>>]
+             logged == [j \in 1..Len(ev.flat) |-> <<ev.flat[j][1], ev.flat[j][2]>>] IN
+         /\ Diag(SameBagSeq(logged, model), "enclose", model, logged)
+         /\ bad' = Mark(SameBagSeq(logged, model), "enclose")
+                   \* stage invariants on the logged forest: nothing is invented, and only a text that parses as a tag may go
+                   \cup (IF \A j \in 1..Len(logged) : \E i \in 1..Len(ev.items) : ev.items[i] = logged[j][1] THEN {} ELSE {<<l, "inv:enclose-invented">>})
+                   \cup (IF Len(logged) <= Len(ev.items) /\ (Len(logged) < Len(ev.items) => \E i \in 1..Len(ev.items) : TagNames(ev.items[i]) # <<>>)
+                         THEN {} ELSE {<<l, "inv:enclose-lost">>})
          /\ UNCHANGED <<cs, merged, contacts, rejects, phase, freeAcc, groupAcc>> /\ ninv' = ninv + 1
     [] OTHER -> bad' = bad /\ UNCHANGED <<cs, merged, contacts, rejects, ninv, phase, freeAcc, groupAcc>>
 Next == l <= Len(Rec) /\ l' = l + 1 /\ Step(Rec[l])
